@@ -18,6 +18,8 @@ func init() { Registry["C12"] = C12 }
 
 var c12Numerals = []string{
 	"0", "-0", "0.0", "1", "1.0", "01", "1e0", "10", "010", "9", "2", "100", "0100", "1e2", "1E2", "1.50E+1", "15",
+	// amounts whose decimal scaling in binary lands just below an integer, and a large whole part next to a fraction
+	"19.99", "0.01", "4.35", "0.15", "1000000000000000", "0.5",
 	"0.1", "0.2", "0.3", "0.30000000000000004",
 	"1e-130", "9.9999999999999999999999999999999999999e125",
 	"9007199254740992", "9007199254740993",
